@@ -89,6 +89,14 @@ def node_defs(n):
         h = n.tag
         if h.name:
             out.append(Def(n, h.name, None, "except"))
+    elif n.kind == "case":
+        for x in ast.walk(n.tag.pattern):
+            nm = getattr(x, "name", None) if isinstance(
+                x, (ast.MatchAs, ast.MatchStar)) else getattr(
+                    x, "rest", None) if isinstance(x, ast.MatchMapping) \
+                else None
+            if nm:
+                out.append(Def(n, nm, None, "pattern"))
     # walrus anywhere in the node's expression
     if n.expr is not None:
         for x in _walk_expr(n.expr):
